@@ -24,7 +24,7 @@ LEVEL = 'exploration'
 FRESH_PROCESS_PER_JOB = True
 RULE = ('one case = (function, element type, data set [pair], optional arguments, mask script); data sets = ALL tuples (every '
         'order, duplicates included) over {-2..2} for SecInt(12) and over {-1,-1/2,0,1/2,1} for SecFxp(12,6) of size 1..4 (5 for '
-        'mean, median*, mode; quick tier: three-point alphabet at size 5 except for mean); quantiles n in {1..5} x {exclusive, inclusive}; variance/stdev with xbar in {None, secure mean}, '
+        'mean, median*, mode; plus for the order statistics the fine alphabet {0, u, 2u, 1/4, 1/2} (u = 2^-6) of size <= 3 (thorough 4); quick tier: three-point alphabet at size 5 except for mean); quantiles n in {1..5} x {exclusive, inclusive}; variance/stdev with xbar in {None, secure mean}, '
         'pvariance/pstdev with mu in {None, secure mean, every alphabet value} (quick: pstdev at size 4 without the alphabet values); covariance: all pairs of integer data sets of size '
         '2..3; covariance/correlation/linear_regression: all pairs over {-1,0,1/2,1} (quick: {-1,0,1/2}) of size 2..3, constant x '
         '(and y for correlation) excluded; list / tuple / iterator inputs on the size<=2 data sets; mask scripts seeded, all-zero, '
@@ -68,7 +68,8 @@ MANIFEST = dict(
 
 INT_ALPHA = (-2, -1, 0, 1, 2)
 FXP_ALPHA = (F(-1), F(-1, 2), F(0), F(1, 2), F(1))
-TYPES = {'int': ('int', 12, 0), 'fxp': ('fxp', 12, 6), 'fxp8': ('fxp', 16, 8)}
+TYPES = {'int': ('int', 12, 0), 'fxp': ('fxp', 12, 6), 'fxp8': ('fxp', 16, 8), 'fxpf': ('fxp', 12, 6)}
+FINE_ALPHA = (F(0), F(1, 64), F(2, 64), F(1, 4), F(1, 2))      # neighbours at 1 unit and values closer than 1/2: near-ties for quickselect
 ORDER_FNS = ('median', 'median_low', 'median_high', 'quantiles')
 FNS1 = ('mean', 'median', 'median_low', 'median_high', 'mode', 'variance', 'stdev', 'pvariance', 'pstdev', 'quantiles')
 FNS2 = ('covariance', 'correlation', 'linear_regression')
@@ -566,7 +567,7 @@ def check_case(part, cfg, case, got, draws, cplain, detail, base=None):
 # ------------------------------------------------------------------------------------------
 
 def alpha(t):
-    return INT_ALPHA if TYPES[t][0] == 'int' else FXP_ALPHA
+    return INT_ALPHA if TYPES[t][0] == 'int' else FINE_ALPHA if t == 'fxpf' else FXP_ALPHA
 
 
 def cases_for(fn, t, size, tier):
@@ -649,6 +650,9 @@ def groups(tier):
                 top = min(top, 4)
             for size in range(1, top + 1):
                 gs.append(('single', fn, t, size))
+    for fn in ORDER_FNS:
+        for size in ((1, 2, 3) if tier == 'quick' else (1, 2, 3, 4)):
+            gs.append(('single', fn, 'fxpf', size))
     for size in (2, 3):
         gs.append(('pair', 'covariance', 'int', size))
         for fn in FNS2:
